@@ -202,7 +202,7 @@ def c13_torch(run, Nmax=2, count=12, circuits=30):
         cmp('diagonalize', lambda: (lambda o: [o.g, o.p])(pci.diagonalize(P(S[-1], 0)).forward(P(S[-1].copy(), 0))),
             lambda: (lambda o: [o.g, o.p % 4])(tci.diagonalize(tP(S[-1], 0)).forward(tP(S[-1], 0))), {'N': N})
     # mirrored circuit programs: the same generator gates taken by both packages; forward / backward of the circuit, of a copy,
-    # of a copy that then takes one more gate, and of the composition of two halves (uncompiled: torch compile is a known finding)
+    # of a copy that then takes one more gate, of the composition of two halves, of the compiled circuit and of its copy
     for pi in range(circuits):
         N = int(rng.integers(2, 5))
         L = int(rng.integers(3, 7))
@@ -236,11 +236,14 @@ def c13_torch(run, Nmax=2, count=12, circuits=30):
             cp = circ.copy()
             cpx = circ.copy(); cpx.take(mk_gate(*extra))
             comp = build(prog[:L // 2]).compose(build(prog[L // 2:]))
-            for c in (circ, cp, cpx, comp):
+            cc = build(prog)
+            cc.compile(N)                      # circuit-compiled
+            ccp = cc.copy()
+            for c in (circ, cp, cpx, comp, cc, ccp):
                 l = mk_list(); c.forward(l); out += post(l)
                 l = mk_list(); c.backward(l); out += post(l)
             return out
-        cmp('circuit_program(copy, extended copy, compose; forward and backward)',
+        cmp('circuit_program(copy, extended copy, compose, compiled, compiled copy; forward and backward)',
             lambda: scenario(lambda: pci.CliffordCircuit(N), pgate, lambda: PL(gsr.copy(), psr.copy()), lambda l: [l.gs.copy(), l.ps % 4]),
             lambda: scenario(lambda: tci.identity_circuit(N), tgate, lambda: tPL(gsr, psr), lambda l: [n(l.gs).copy(), n(l.ps) % 4]), inp)
     # random_clifford must be able to entangle
